@@ -4,6 +4,7 @@ import (
 	"encoding/json"
 	"fmt"
 	"sort"
+	"strings"
 	"testing"
 
 	"github.com/zmap/zlint/v3"
@@ -316,6 +317,99 @@ func TestC07(t *testing.T) {
 		}, func(s string) { t.Fatalf("%s", s) })
 		gen.OIDFamilyMode = false
 		sweepSelect = nil
+	}
+	// long echoes: many lints quote the value they object to. Certificates whose common name and dNSName are a few
+	// bytes either side of 2^k bytes long, with a multi-byte character walking across the boundary, make those details
+	// cross any size limit somebody may put on them: each quoting lint alone must say exactly what it says in the full run
+	{
+		_, tls := structBases()
+		bounds := []int{1024, 4096}
+		if stats.Thorough() {
+			bounds = []int{256, 1024, 2048, 4096, 8192, 65536}
+		}
+		longCert := func(base gen.Obj, B, off int) ([]byte, bool) {
+			v, err := gen.ViewCert(base.DER)
+			if err != nil {
+				return nil, false
+			}
+			v.SetCN([]byte(strings.Repeat("a", B+off)+"\u20ac"+strings.Repeat("b", 300)), 12)
+			v.SetSAN(false, gen.GNDNS([]byte("example.com")), gen.GNDNS([]byte("x_"+strings.Repeat("y", B+104)+".example.com")), gen.GNDNS([]byte(strings.Repeat("z", B+off)+"\u00e9"+strings.Repeat("w", 200)+".example.org")))
+			return v.DER(), true
+		}
+		quotingOn := func(der []byte, B int) []string {
+			var q []string
+			if f, ok := lintObj(gen.Cert, der); ok {
+				for n, r := range f(g).Results {
+					if r != nil && len(r.Details) > B/2 {
+						q = append(q, n)
+					}
+				}
+			}
+			sort.Strings(q)
+			return q
+		}
+		// the bases: of the first 40 TLS bases (their dates decide which lints are in force) the two on which most
+		// lints quote at length, with different sets
+		type lb struct {
+			obj gen.Obj
+			q   []string
+		}
+		var best []lb
+		for bi := 0; bi < len(tls) && bi < 40; bi++ {
+			o := gen.LoadCorpus().Certs[tls[bi]]
+			if der, ok := longCert(o, 1024, 0); ok {
+				q := quotingOn(der, 1024)
+				dup := false
+				for _, b := range best {
+					dup = dup || strings.Join(b.q, ",") == strings.Join(q, ",")
+				}
+				if !dup && len(q) > 0 {
+					best = append(best, lb{o, q})
+				}
+			}
+		}
+		sort.SliceStable(best, func(a, b int) bool { return len(best[a].q) > len(best[b].q) })
+		if len(best) > 2 {
+			best = best[:2]
+		}
+		kk := 0
+		for _, b := range best {
+			base := b.obj
+			for _, B := range bounds {
+				der0, ok := longCert(base, B, 0)
+				if !ok {
+					continue
+				}
+				quoting := quotingOn(der0, B)
+				rec.ClassN(fmt.Sprintf("quoting_lints_at_%d", B), int64(len(quoting)))
+				for off := -150; off <= 6; off++ {
+					kk++
+					if !stats.Mine(kk) {
+						continue
+					}
+					der, ok := longCert(base, B, off)
+					if !ok {
+						continue
+					}
+					for qi, q := range quoting {
+						fs := []engine.FilterSpec{{IncludeNames: []string{q}}}
+						if qi > 0 {
+							fs = append(fs, engine.FilterSpec{ExcludeNames: []string{quoting[0]}})
+						}
+						for _, f := range fs {
+							c := c07Case{Case: engine.Case{Kind: gen.Cert, DER: der, Base: base.Name, Ops: []string{fmt.Sprintf("long echo: values of 2^k%+d bytes (2^k=%d) with a multi-byte character at the end", off, B)}, Filters: []engine.FilterSpec{f}}, SameObject: (kk + qi) % 3}
+							rec.Eval()
+							rec.Class("long_echo")
+							if sig, msg := judgeC07(rec, c); msg != "" {
+								if rec.Report("c07", sig, msg, c) {
+									t.Fatalf("c07 long echo (bound %d, offset %d, %v): %s: %s", B, off, f, sig, msg)
+								}
+							}
+						}
+					}
+				}
+			}
+		}
 	}
 	rapidRun(t, "order-structured", perShard(stats.Scale(3000, 100000)), func(rt *rapid.T) {
 		sc, ok := drawAnyStructured(rt)
